@@ -170,4 +170,11 @@ PROPS = {
         "rule": "workloads of Put/Remove/tick/Close/reopen on leveldb.DB and SerialDB (batch sizes 1-5) over a recording goleveldb storage; at EVERY storage event (create/write/sync/setmeta/remove/rename) during a call and at every operation boundary crash images are materialised (unsynced tail none / torn at a random byte / all), reopened with the unmodified constructors and dumped by RangeKeys; the Lean model decides whether each recovered map is an allowed flush boundary; distinct = distinct (operation kind, output) pairs",
         "assumptions": ["that goleveldb applies a synced batch atomically and recovers it from a torn journal is observed on the sampled crash images, not proved", "that the timer fires within BatchDelaySeconds and kernel fsync semantics are outside the model", "Sync:true on every LevelDB write is a regenerated fact"],
     },
+    "C14": {
+        "theorems": [],
+        "modules": ["SV.Props.C14"],
+        "runs": [{"component": "conc14", "thorough_seeds": 2, "race": True}],
+        "rule": "concurrent workloads (4-8 goroutines, GOMAXPROCS 1/2/4/16) on TxCache (add/remove/select/iterate with eviction; adds only), ImmunityCache, LRU, sized LRU, FIFO cache, TimeCache and ConcurrentMap from a binary built with -race; yields injected at the txcache verifPoint hooks and inside host/session callbacks; oracles: no race / panic / deadlock (watchdog), C01/C02 on every concurrent selection, all concurrently added transactions present and ordered, immunized items survive, size bounds, quiescent CountTx/NumBytes; distinct = distinct (operation kind, output) pairs",
+        "assumptions": ["absence of data races, panics and runtime deadlocks is exercised under the race detector, not proved", "the Lean part: lock-order and critical-section facts regenerated from the source, and the sequential theorems they make applicable to every schedule"],
+    },
 }
